@@ -41,7 +41,7 @@ func genRealm(t *rapid.T) string {
 	return rapid.StringOfN(rapid.RuneFrom(realmAlphabet), 1, 8, -1).Draw(t, "realmfree")
 }
 
-// Gen draws one API with 1-3 operations and 5-9 requests.
+// Gen draws one API with 1-4 operations and 8-16 requests (loading a description costs ~8 ms: amortised).
 func Gen(t *rapid.T) Case {
 	var c Case
 	if rapid.IntRange(0, 2).Draw(t, "global") == 0 {
@@ -53,7 +53,7 @@ func Gen(t *rapid.T) Case {
 	c.Realm = genRealm(t)
 	c.RealmCtx = rapid.IntRange(0, 2).Draw(t, "realmctx") == 0
 	c.AuthErr = rapid.SampledFrom([]string{"unauth", "unauth", "plain", "forbidden"}).Draw(t, "autherr")
-	nops := rapid.IntRange(1, 3).Draw(t, "nops")
+	nops := rapid.IntRange(1, 4).Draw(t, "nops")
 	for i := 0; i < nops; i++ {
 		op := Op{Method: rapid.SampledFrom(methods).Draw(t, "method")}
 		if rapid.IntRange(0, 5).Draw(t, "inherit") != 0 {
@@ -65,7 +65,7 @@ func Gen(t *rapid.T) Case {
 		op.Param = rapid.IntRange(0, 3).Draw(t, "param") == 0
 		c.Ops = append(c.Ops, op)
 	}
-	nreq := rapid.IntRange(5, 9).Draw(t, "nreq")
+	nreq := rapid.IntRange(8, 16).Draw(t, "nreq")
 	for i := 0; i < nreq; i++ {
 		rq := Req{Op: rapid.IntRange(0, nops-1).Draw(t, "op")}
 		op := c.Ops[rq.Op]
@@ -90,6 +90,9 @@ func Gen(t *rapid.T) Case {
 		}
 		if op.Param {
 			rq.Param = rapid.SampledFrom([]string{"ok", "ok", "ok", "missing", "bad"}).Draw(t, "paramval")
+		}
+		if r := rapid.IntRange(0, 19).Draw(t, "route"); r < 2 {
+			rq.Route = []string{"notfound", "wrongmethod"}[r]
 		}
 		rq.Outcome = rapid.SampledFrom(outcomes).Draw(t, "outcome")
 		switch rq.Outcome {
@@ -144,6 +147,9 @@ func Classify(c Case) (bool, []string) {
 		}
 		stage := ""
 		switch {
+		case rq.Route != "":
+			stage = rq.Route
+			nt = true
 		case op.Secured && rq.Cred != "good":
 			stage = "auth failure: " + rq.Cred
 			if strings.ContainsAny(c.Realm, "\"\\") {
@@ -210,19 +216,19 @@ func Classify(c Case) (bool, []string) {
 	return nt, out
 }
 
-const rule = "one API per case: 1-3 operations (GET/HEAD/POST/PUT/DELETE) with own or inherited produces lists of 1-4 entries incl. entries with parameters, stamped producers for every type, " +
+const rule = "one API per case: 1-4 operations (GET/HEAD/POST/PUT/DELETE) with own or inherited produces lists of 1-4 entries incl. entries with parameters, stamped producers for every type, " +
 	"API default type JSON or another (declared in produces or not), declared responses {200; 201+200; 204; 204+200; 202+299; 299; 200+404+500; 404+201; 404 only; default only; ...}, " +
 	"basic auth (realm with quotes, backslashes, commas, non-ASCII; BasicAuthRealm or BasicAuthRealmCtx; rejection by Unauthenticated / plain / 403 error), optional required query parameter; " +
-	"5-9 requests: Accept from C07's structured tier (none, one exact type, foreign type, generated ranges), credentials good/bad/none/malformed/bearer, handler outcome value / nil / Responder / middleware.Error / NotImplemented / " +
+	"8-16 requests: Accept from C07's structured tier (none, one exact type, foreign type, generated ranges), credentials good/bad/none/malformed/bearer, handler outcome value / nil / Responder / middleware.Error / NotImplemented / " +
 	"plain error / errors.Error with status / composite error. Oracle: status = lowest declared 2xx; Content-Type is an offer ranked highest by the structure (a set, map order); body stamp = producer registered for the announced type " +
-	"without parameters; empty body for HEAD and 204; a Responder is handed that same producer; errors (handler, 406, 422, authentication, no 2xx declared) reach the recording error responder exactly once with that error value, " +
+	"without parameters; empty body for HEAD and 204; a Responder is handed that same producer; errors (handler, 404/405, 406, 422, authentication, no 2xx declared) reach the recording error responder exactly once with that error value, " +
 	"Content-Type JSON when nothing was negotiated; failed or absent basic credentials carry one WWW-Authenticate challenge whose quoted-string realm decodes to the configured realm. " +
 	"Non-trivial: a produces entry carries parameters, or >=2 producers compete, or HEAD / 204 / Responder / error case; distinct by hash of the case"
 
 // Props lists the generated checks of C08.
 func Props() []kit.Runner {
 	return []kit.Runner{
-		kit.Prop[Case]{ID: "C08", Name: "respond", Rule: rule, Quick: 2500, Thorough: 15000,
+		kit.Prop[Case]{ID: "C08", Name: "respond", Rule: rule, Quick: 1200, Thorough: 8000,
 			Gen: Gen, Check: Check, Classify: Classify, SampleLimit: 2500},
 	}
 }
